@@ -151,6 +151,7 @@ def normalize_config(cfg):
         "receivers": ["receive"],
         "buffer_limit": 0,
         "cancel": None,  # {"kind": "cancel"|"timeout", "receiver": i, "mode": "retry"|"stop"}
+        "cancel_sender": None,  # i: sender i is cancelled (once, at any point) while one of its sends is in progress
         "send_yield": True,  # senders yield to the loop between two sends
         "recv_yield": False,  # receivers yield to the loop after each received item
         "max_depth": 400,
@@ -337,7 +338,7 @@ class Run:
               tuple(g._state for g in q._getters), tuple(p._state for p in q._putters))
         harness = (self.closed_called, tuple(sorted(self.send_status.items())),
                    tuple(sorted(self.received_set)), tuple(sorted(self.failures)),
-                   tuple(s.sig() for s in self.rstate), len(self.loop_errors))
+                   tuple(s.sig() for s in self.rstate), len(self.loop_errors), getattr(self, "sender_cancel_requested", None))
         return (tuple(tasks), tuple(ready), timers, chv, qv, harness)
 
     # ---- failures ------------------------------------------------------------------
@@ -367,6 +368,12 @@ class Run:
                 if self.cleanup:
                     self.send_status[item] = "blocked"
                     raise
+                if self.sender_cancel_requested == i:
+                    # the caller gave up on this send: the item was not delivered and is owed to nobody
+                    self.send_status[item] = "cancelled"
+                    self.events.append(("send-cancelled", item))
+                    asyncio.current_task().uncancel()
+                    return
                 self.fail("C12:unexpected-exception:send:CancelledError", "send(%r)" % (item,))
                 return
             except Exception as e:  # noqa: BLE001
@@ -522,6 +529,16 @@ class Run:
         self.events.append(("close",))
         self.ch.close()
 
+    async def _sender_canceller(self, i):
+        t = self.stasks[i]
+        busy = [it for it, st in self.send_status.items() if it[0] == i and st == "started"]
+        if busy and not t.done() and self.sender_cancel_requested is None:
+            self.sender_cancel_requested = i
+            self.events.append(("cancel-sender", i))
+            t.cancel()
+        else:
+            self.events.append(("cancel-sender-skipped", i))
+
     async def _canceller(self, rid):
         st = self.rstate[rid]
         t = self.rtasks[rid]
@@ -596,13 +613,17 @@ class Run:
             asyncio.events._set_running_loop(None)
             self.ch = AsyncChannel(buffer_limit=cfg["buffer_limit"])
             # creation order = FIFO order of the first steps = the stock asyncio schedule for choice 0
+            self.stasks = []
+            self.sender_cancel_requested = None
             for i, n in enumerate(cfg["senders"]):
-                self._spawn(loop, self._sender(i, n), "S%d" % i)
+                self.stasks.append(self._spawn(loop, self._sender(i, n), "S%d" % i))
             for rid, kind in enumerate(cfg["receivers"]):
                 self.rtasks.append(self._spawn(loop, self._receiver(rid, kind), "R%d" % rid))
             self._spawn(loop, self._closer(), "closer")
             if cfg["cancel"] and cfg["cancel"]["kind"] == "cancel":
                 self._spawn(loop, self._canceller(cfg["cancel"]["receiver"]), "canceller")
+            if cfg["cancel_sender"] is not None:
+                self._spawn(loop, self._sender_canceller(cfg["cancel_sender"]), "sender-canceller")
             loop.run_forever()
             if loop.pruned:
                 self.outcome = "pruned"
@@ -862,6 +883,13 @@ def CONFIGS(tier="quick"):
             _cfg([2, 2], [R, A], buf=1),
             _cfg([2, 1], [R, A, RS], buf=2, cancel=can(kind="timeout")),
             _cfg([3], [R, R], buf=1, cancel=can(mode="stop")),
+            # a sender that gives up (cancelled while its send is in progress, e.g. blocked on a full buffer)
+            _cfg([2], [R], buf=1, cancel_sender=0),
+            _cfg([2, 2], [R], buf=1, cancel_sender=1),
+            _cfg([1, 1, 1], [A], buf=1, cancel_sender=2),
+            _cfg([2, 1], [R, A], buf=1, cancel_sender=0),
+            _cfg([3], [RS, R], buf=2, cancel_sender=0),
+            _cfg([2], [R], cancel_sender=0),
         ]
     # thorough: the full quantifier
     senders = [[1], [2], [3], [1, 1], [2, 1], [2, 2], [3, 1], [3, 2], [3, 3]]
@@ -883,6 +911,12 @@ def CONFIGS(tier="quick"):
             for buf in (0, 1, 2):
                 for c in (None, can(0), can(0, kind="timeout")):
                     out.append(_cfg(s, r, buf=buf, cancel=c))
+    # a sender that gives up while its send is in progress
+    for s in ([2], [3], [1, 1], [2, 2], [1, 1, 1], [2, 1, 1]):
+        for r in ([R], [A], [R, R], [R, A], [RS, R]):
+            for buf in (0, 1, 2):
+                for cs in range(len(s)):
+                    out.append(_cfg(s, r, buf=buf, cancel_sender=cs))
     # a few with receivers that yield after each item
     for s in ([2], [1, 1]):
         for r in ([R, R], [R, A]):
@@ -893,7 +927,7 @@ def CONFIGS(tier="quick"):
 
 
 def _size(cfg):
-    return sum(cfg["senders"]) + 2 * len(cfg["receivers"]) + (2 if cfg.get("cancel") else 0) + \
+    return sum(cfg["senders"]) + 2 * len(cfg["receivers"]) + (2 if cfg.get("cancel") else 0) + (2 if cfg.get("cancel_sender") is not None else 0) + \
         (2 if cfg.get("recv_yield") else 0)
 
 
